@@ -226,6 +226,33 @@ def run(facts, rep):
         rep.indet('E7: table extraction left the recognised fragment: %s' % e)
         return None
     rep.inventory['E7 tables'] = {k: ({str(a): b for a, b in v.items()} if isinstance(v, dict) else v) for k, v in T.items()}
+    selftest(T, rep)
+    return check_tables(T, rep)
+
+
+def selftest(T, rep):
+    """positive controls: each T-rule must fire on a copy of today's tables with one entry corrupted"""
+    import copy
+    from fixtures import Scratch
+    cases = [('T1', 'pass', lambda t: t['pass'].__setitem__('V', [1, 2, 3, 0])),
+             ('T2', 'arcs', lambda t: t['arcs'].__setitem__('H', [(0, 3), (1, 2)])),
+             ('T3', 'resolve', lambda t: t['resolve'].__setitem__(('Xm', 0), 'H')),
+             ('T4', 'mirror', lambda t: t['mirror'].__setitem__('X', 'X')),
+             ('T5', 'sign', lambda t: t['sign'].__setitem__(('Xm', 1), 'Neg')),
+             ('T6', 'ori', lambda t: t['ori'].update({'Pos': 1, 'Neg': 0})),
+             ('T7', 'braid', lambda t: t['braid'].__setitem__('Neg', list(t['braid']['Pos'])))]
+    for rule, what, corrupt in cases:
+        t2 = copy.deepcopy(T)
+        corrupt(t2)
+        s = Scratch()
+        check_tables(t2, s)
+        hit = any(v[0].startswith('E7.' + rule) for v in s.violations)
+        rep.controls.append({'engine': 'E7.' + rule, 'bad_flagged': hit, 'detail': 'corrupted %s table' % what})
+        if not hit:
+            rep.indet('E7 self-test: rule %s does not fire on a corrupted %s table' % (rule, what))
+
+
+def check_tables(T, rep):
     V = rep.violation
     w_cross = 'yui-link/src/link/crossing.rs'
     w_link = 'yui-link/src/link/link.rs'
